@@ -322,6 +322,7 @@ class JsonRPCProtocol:
         try:
             if "id" in data:
                 if "error" in data:
+                    self._result_types.pop(data["id"], None)
                     return self._converter.structure(data, ResponseErrorMessage)
                 elif "method" in data:
                     request_type = (
